@@ -1,9 +1,11 @@
 package c06
 
 import (
+	"bytes"
+	"context"
+	"strconv"
 	"sync"
 	"sync/atomic"
-	"context"
 	"encoding/hex"
 	"encoding/json"
 	"fmt"
@@ -39,7 +41,17 @@ type History struct {
 	Ops     []*Op  `json:"ops"`
 }
 
+// unhex decodes a byte string of a history: hex digits, or "<hex>*<n>" = the hex unit repeated n times
+// (how a 70000-byte value is written in a corpus or replay file)
 func unhex(s string) []byte {
+	if i := strings.IndexByte(s, '*'); i >= 0 {
+		unit, err := hex.DecodeString(s[:i])
+		n, err2 := strconv.Atoi(s[i+1:])
+		if err != nil || err2 != nil || n < 0 {
+			panic(fmt.Sprintf("bad byte string %q", s))
+		}
+		return bytes.Repeat(unit, n)
+	}
 	b, err := hex.DecodeString(s)
 	if err != nil {
 		panic(err)
@@ -49,6 +61,9 @@ func unhex(s string) []byte {
 	}
 	return b
 }
+
+// Unhex decodes a byte string of a history (for the properties that reuse the generator)
+func Unhex(s string) []byte { return unhex(s) }
 
 func cc(o *Op) []byte {
 	if o.CCNil {
@@ -61,14 +76,14 @@ func optBytes(ok bool, b []byte) string {
 	if !ok {
 		return "None"
 	}
-	return "(Some " + kit.Bytes(b) + ")"
+	return "(Some " + kit.Val(b) + ")"
 }
 
 // Coq prints the op as a Coq `sop` term
 func (o *Op) Coq() string { return o.coq() }
 
 func (o *Op) coq() string {
-	b := func(s string) string { return kit.Bytes(unhex(s)) }
+	b := func(s string) string { return kit.Val(unhex(s)) }
 	switch o.Op {
 	case "Put":
 		return fmt.Sprintf("OPut %s %s %s", b(o.PK), b(o.CC), b(o.V))
@@ -112,7 +127,7 @@ func Exec(st istorage.IAppStorage, clock *kit.Clock, o *Op) string {
 	rows := func(read func(context.Context, []byte, []byte, []byte, istorage.ReadCallback) error) string {
 		var items []string
 		err := read(ctx, unhex(o.PK), unhex(o.Start), unhex(o.Finish), func(c, v []byte) error {
-			items = append(items, fmt.Sprintf("(%s, %s)", kit.Bytes(c), kit.Bytes(v)))
+			items = append(items, fmt.Sprintf("(%s, %s)", kit.Val(c), kit.Val(v)))
 			return nil
 		})
 		if err != nil {
